@@ -176,6 +176,18 @@ impl Report {
 /// Run `case(index, &mut Report)` for every index in 0..total on `threads` workers.
 /// `describe(index)` renders the input for hang reports. A case that runs longer than `hang_after`
 /// makes the whole run stop with `hang` set (the stuck thread cannot be killed; the caller exits).
+fn rss_bytes() -> u64 {
+    std::fs::read_to_string("/proc/self/statm")
+        .ok()
+        .and_then(|t| t.split_whitespace().nth(1).and_then(|p| p.parse::<u64>().ok()))
+        .map(|pages| pages * 4096)
+        .unwrap_or(0)
+}
+
+fn max_rss_bytes() -> u64 {
+    std::env::var("SEQMC_MAX_RSS_GB").ok().and_then(|v| v.parse::<u64>().ok()).unwrap_or(16) << 30
+}
+
 /// CPU time consumed so far by the thread with the given pthread id (0 if it cannot be read).
 fn thread_cpu_ns(pt: u64) -> u64 {
     unsafe {
@@ -253,6 +265,25 @@ where
                 break;
             }
             std::thread::sleep(Duration::from_millis(100));
+            // a case that allocates without bound is as much a non-terminating case as one that spins: stop before the
+            // machine does, and name the case that has been running longest
+            if rss_bytes() > max_rss_bytes() {
+                let mut oldest: Option<(Instant, usize)> = None;
+                for t in 0..threads {
+                    if let Some(st) = *slots[t].1.lock().unwrap() {
+                        if oldest.map(|(o, _)| st < o).unwrap_or(true) {
+                            oldest = Some((st, t));
+                        }
+                    }
+                }
+                let d = match oldest {
+                    Some((_, t)) => describe(slots[t].0.load(Ordering::Relaxed)),
+                    None => "<no case running>".to_string(),
+                };
+                let mut rep = Report::default();
+                rep.hang = Some(format!("{} [memory use exceeded {} GB]", d, max_rss_bytes() >> 30));
+                crate::emit_and_exit(rep);
+            }
             for t in 0..threads {
                 let started = *slots[t].1.lock().unwrap();
                 if let Some(st) = started {
